@@ -22,6 +22,7 @@ type NextParams struct {
 	Idx       []int    `json:"idx"`               // pool indexes of BFT validators
 	Weights   []uint64 `json:"weights"`           // their BFT weights (>0)
 	Standby   []int    `json:"standby,omitempty"` // pool indexes of generators with weight 0
+	AltGen    []int    `json:"altGen,omitempty"`  // pool indexes whose generator key is the alternate one from the next height on
 	Precommit uint64   `json:"precommit"`
 	Cert      uint64   `json:"cert"`
 }
@@ -81,13 +82,20 @@ func txOutcome(tx *blockchain.Transaction) (int, int) {
 	return o, ev
 }
 
-// ScriptOf extracts the script from block assets (zero script when absent/malformed).
+// ScriptOf extracts the script from block assets (zero script when malformed). A block WITHOUT the script asset still makes
+// the application emit one event in each block hook: applications log per-block events (rewards, validator bookkeeping)
+// whatever a block carries, so "no transactions and no assets" does not mean "no events".
 func ScriptOf(assets []*blockchain.BlockAsset) Script {
 	var s Script
+	found := false
 	for _, a := range assets {
 		if a.Module == ScriptModule {
 			_ = json.Unmarshal(a.Data, &s)
+			found = true
 		}
+	}
+	if !found {
+		return Script{EvBefore: 1, EvAfter: 1}
 	}
 	return s
 }
@@ -154,14 +162,24 @@ func NextStateRoot(prevRoot []byte, height uint32, assets []*blockchain.BlockAss
 // ValidatorsOf renders a NextParams as labi validators (list order = generator round-robin order).
 func ValidatorsOf(p *NextParams) []*labi.Validator {
 	keys := Keys()
+	alt := map[int]bool{}
+	for _, ix := range p.AltGen {
+		alt[ix] = true
+	}
+	gk := func(k *Key) []byte {
+		if alt[k.Index] {
+			return k.EdPub2
+		}
+		return k.EdPub
+	}
 	var out []*labi.Validator
 	for i, ix := range p.Idx {
 		k := keys[ix]
-		out = append(out, &labi.Validator{Address: k.Addr, BFTWeight: p.Weights[i], GeneratorKey: k.EdPub, BLSKey: k.BLSPub})
+		out = append(out, &labi.Validator{Address: k.Addr, BFTWeight: p.Weights[i], GeneratorKey: gk(k), BLSKey: k.BLSPub})
 	}
 	for _, ix := range p.Standby {
 		k := keys[ix]
-		out = append(out, &labi.Validator{Address: k.Addr, BFTWeight: 0, GeneratorKey: k.EdPub, BLSKey: k.BLSPub})
+		out = append(out, &labi.Validator{Address: k.Addr, BFTWeight: 0, GeneratorKey: gk(k), BLSKey: k.BLSPub})
 	}
 	return out
 }
